@@ -102,6 +102,7 @@ func init() {
 		runs := runsOf(lifeRuns(tier), o, MonFlags{})
 		d, b, m := bump(tier, 7, 4, 3)
 		runs = append(runs, RunSpec{Name: "fees", Sc: scFees(paramSet("0.1", "0.001"), false, d, b, m), Oracles: o})
+		runs = append(runs, RunSpec{Name: "fees-restart", Sc: restartable(scFees(paramSet("0.1", "0.001"), false, d, b, m-1)), Oracles: o})
 		runs = append(runs, RunSpec{Name: "huge-values", Sc: scHuge(paramSet("0.1", "0.001"), d-1, b, 2), Oracles: o})
 		runs = append(runs, slashAfterRefundRun(o, MonFlags{}), priceFractionsRun(o, MonFlags{}, d, b, 2))
 		return runs
@@ -111,6 +112,7 @@ func init() {
 		runs := runsOf(lifeRuns(tier), o, MonFlags{})
 		d, b, m := bump(tier, 7, 4, 3)
 		runs = append(runs, RunSpec{Name: "fees", Sc: scFees(paramSet("0.5", "0.001"), false, d, b, m), Oracles: o})
+		runs = append(runs, RunSpec{Name: "fees-restart", Sc: restartable(scFees(paramSet("0.5", "0.001"), false, d, b, m-1)), Oracles: o})
 		runs = append(runs, RunSpec{Name: "huge-values", Sc: scHuge(paramSet("0.1", "0.001"), d-1, b, 2), Oracles: o})
 		runs = append(runs, slashAfterRefundRun(o, MonFlags{}), priceFractionsRun(o, MonFlags{}, d, b, 2))
 		if tier == "thorough" {
@@ -128,7 +130,8 @@ func init() {
 			{Name: "bind-ops+slash", Sc: scBind(defaultParams(), bindOpsFull(), []Template{tSlash}, []string{"bad"}, d, b, m), Oracles: o, Mon: MonFlags{Dis: true}},
 			{Name: "bind-ops+two-failures", Sc: scBind(paramSet("0.1", "0.001"), bindOpsSmall(), []Template{tSlash2}, []string{"bad", "ok"}, d+1, b+1, 2), Oracles: o, Mon: MonFlags{Dis: true}},
 		}
-		runs = append(runs, runsOf(lifeRuns(tier), o, MonFlags{Dis: true}, "life-main", "life-caplow-flipped")...)
+		runs = append(runs, runsOf(lifeRuns(tier), o, MonFlags{Dis: true}, "life-main", "life-caplow-flipped", "life-restart", "fx-main")...)
+		runs = append(runs, RunSpec{Name: "bind-ops+slash-restart", Sc: restartable(scBind(defaultParams(), bindOpsFull(), []Template{tSlash}, []string{"bad"}, d, b, m-1)), Oracles: o, Mon: MonFlags{Dis: true}})
 		// arbitration 1.5 s + complaint 0.5 s: the refundable instant is exactly two blocks after the disabling time
 		frac := defaultParams()
 		frac.Arbitration, frac.Complaint, frac.Name = 1500*time.Millisecond, 500*time.Millisecond, "arbitration1.5s-complaint0.5s"
@@ -314,8 +317,10 @@ func init() {
 			{Name: "fees-after-refund", Sc: scFeesRefund(paramSet("0.1", "0.001"), d-1, b, m-1), Oracles: o},
 			{Name: "fees-provider-is-owner", Sc: scFeesSelf(paramSet("0.1", "0.001"), d-1, b, m), Oracles: o},
 			{Name: "fees-provider-lengths", Sc: scFeesLengths(paramSet("0.1", "0.001"), d-1, b, m), Oracles: o},
-			{Name: "fees-tax-zero", Sc: scFees(paramSet("0", "0.001"), false, d-1, b, m-1), Oracles: o}}
-		runs = append(runs, runsOf(lifeRuns(tier), o, MonFlags{}, "life-main", "life-control", "mod-main")...)
+			{Name: "fees-tax-zero", Sc: scFees(paramSet("0", "0.001"), false, d-1, b, m-1), Oracles: o},
+			{Name: "fees-restart", Sc: restartable(scFees(paramSet("0.1", "0.001"), true, d-1, b+1, m-1)), Oracles: o},
+			{Name: "fees-provider-lengths-restart", Sc: restartable(scFeesLengths(paramSet("0.1", "0.001"), d-1, b+1, m-1)), Oracles: o}}
+		runs = append(runs, runsOf(lifeRuns(tier), o, MonFlags{}, "life-main", "life-control", "mod-main", "life-restart", "fx-main")...)
 		return runs
 	}})
 	register(&CheckSpec{Prop: "C14", Runs: func(tier string) []RunSpec {
@@ -345,8 +350,10 @@ func init() {
 			sc.Name, sc.GovRaisesMinimum = "S-BIND("+g.Name+")", true
 			runs = append(runs, RunSpec{Name: g.Name, Sc: sc, Oracles: o})
 		}
-		// (the msvc run is left out: its module-service binding is installed by the host chain with a zero deposit, not by a message)
-		runs = append(runs, runsOf(lifeRuns(tier), o, MonFlags{}, "life-main", "life-caplow-flipped", "price-subunit+zero", "mod-main")...)
+		// (bindings of module services are installed by the host chain with a zero deposit, not by a message: the invariant skips them)
+		runs = append(runs, runsOf(lifeRuns(tier), o, MonFlags{}, "life-main", "life-caplow-flipped", "price-subunit+zero", "mod-main", "msvc", "life-restart", "fx-main", "fx-rate-unavailable")...)
+		runs = append(runs, RunSpec{Name: "bind-ops+slash-restart", Sc: restartable(scBind(defaultParams(), bindOpsFull(), []Template{tSlash}, []string{"bad"}, d, b, m-1)), Oracles: o})
+		runs = append(runs, RunSpec{Name: "bind-ops-main-unit+foreign-token", Sc: scBindFX(defaultParams(), d, b, m), Oracles: o})
 		if tier == "thorough" {
 			p := defaultParams()
 			p.MinDeposit, p.Multiple, p.Name = 3, 5, "min3-mult5"
@@ -378,6 +385,9 @@ func init() {
 			{Name: "fees-auth", Sc: scFees(paramSet("0.1", "0.001"), true, 6+d, 3, 3), Oracles: o},
 			{Name: "fees-provider-is-owner", Sc: scFeesSelf(paramSet("0.1", "0.001"), 6+d, 3, 3), Oracles: o},
 			{Name: "msvc-reserved", Sc: scMsvc(defaultParams(), 5+d, 3, 3), Oracles: o},
+			{Name: "bind-auth-restart", Sc: restartable(scBindAuth(defaultParams(), 6+d, 3, 3)), Oracles: o},
+			{Name: "fees-auth-restart", Sc: restartable(scFees(paramSet("0.1", "0.001"), true, 5+d, 3, 2)), Oracles: o},
+			{Name: "two-module-services-reserved", Sc: scMsvcTwo(defaultParams(), 4+d, 2, 4), Oracles: o},
 		}
 		// a module that pauses its other contexts from inside the state callback of one that cannot pay
 		for _, fl := range []bool{false, true} {
@@ -402,6 +412,8 @@ func init() {
 			{Name: "bind-ops+slash-all", Sc: scBind(paramSet("0.5", "1"), bindOpsSmall(), []Template{tSlash2}, []string{"bad"}, 6+d, 4, 2), Oracles: o},
 			{Name: "slash-after-refund", Sc: scBind(defaultParams(), []Action{actBind("a", "P1", "O1", 10, "p1", 1), actDisable("a", "P1", "O1"), actRefund("a", "P1", "O1")}, []Template{tSlash3}, []string{"bad"}, 8+d, 5, 2), Oracles: o},
 			{Name: "huge-deposits", Sc: scHugeDeposits(defaultParams(), 6+d, 3, 4), Oracles: o},
+			{Name: "names-restart", Sc: restartable(scNames(defaultParams(), 6+d, 3, 3)), Oracles: o},
+			{Name: "bind-ops-main-unit+foreign-token", Sc: scBindFX(defaultParams(), 6+d, 3, 3), Oracles: o},
 		}
 	}})
 	register(&CheckSpec{Prop: "C17", Runs: func(tier string) []RunSpec {
@@ -497,6 +509,13 @@ func init() {
 }
 
 func flip(sc *Scenario) *Scenario { sc.FlipIDs = true; return sc }
+
+// restartable: the chain may be restarted once from a zero-height export along the way (restart.go).
+func restartable(sc *Scenario) *Scenario {
+	sc.Restart = true
+	sc.Name += "+restart"
+	return sc
+}
 
 // bindOpsSmall: two bound providers with a comfortable deposit, disable/enable/refund — for multi-failure slashes.
 func bindOpsSmall() []Action {
